@@ -64,6 +64,20 @@ func c17Shapes(quick bool) []Shape {
 		WriteS{Path: S("a.txt"), Data: S("first version")},
 		Pr(ReadE{Path: S("a.txt")}, Call("rotate", S("a.txt"), S("second version")), ReadE{Path: S("a.txt")}),
 		Def("x", Op("+", ReadE{Path: S("a.txt")}, Call("note", S("a.txt"), S("third line")))), Pr(V("x")), Pr(ReadE{Path: S("a.txt")}))))
+	sh = append(sh, constShape("two-exists-in-one-expression", Prog(
+		Fn("both", []ParamDecl{Pm("p", TString), Pm("q", TString)}, []Type{TBool}, Ret(Op("&&", ExistsE{Path: V("p")}, NOT(ExistsE{Path: V("q")})))),
+		WriteS{Path: S("a.txt"), Data: S("there")},
+		Pr(ExistsE{Path: S("a.txt")}, ExistsE{Path: S("b.txt")}), Pr(ExistsE{Path: S("b.txt")}, ExistsE{Path: S("a.txt")}),
+		IfElse(Op("&&", ExistsE{Path: S("a.txt")}, NOT(ExistsE{Path: S("b.txt")})), Blk{Pr(S("only a"))}, Blk{Pr(S("wrong"))}),
+		Pr(Call("both", S("a.txt"), S("b.txt")), Call("both", S("b.txt"), S("a.txt"))),
+		Def("name", S("a.txt")), Pr(ExistsE{Path: V("name")}, Substr{S: V("name"), Lo: N(0), Hi: N(1)}, ExistsE{Path: S("b.txt")}, StrIdx{S: V("name"), I: N(2)}))))
+	sh = append(sh, constShape("content-and-path-from-calls", Prog(
+		Fn("label", []ParamDecl{Pm("s", TString)}, []Type{TString}, Ret(Op("+", V("s"), S("!")))),
+		Fn("target", nil, []Type{TString}, Ret(S("a.txt"))),
+		Fn("store", []ParamDecl{Pm("s", TString)}, nil, WriteS{Path: Call("target"), Data: Call("label", V("s")), Append: T()}),
+		WriteS{Path: S("a.txt"), Data: Call("label", S("four"))}, Pr(ReadE{Path: S("a.txt")}),
+		WriteS{Path: Call("target"), Data: Paren{X: Call("label", S("x"))}, Append: T()}, Pr(ReadE{Path: Call("target")}),
+		Do(Call("store", S("y"))), Pr(ReadE{Path: S("a.txt")}, ExistsE{Path: Call("target")}))))
 	sh = append(sh, Shape{Name: "append-flag-symbolic", AssumeLits: smallLits(0, 1, 0), Prog: func(c *gosym.Ctx) *Program {
 		v := SymStr(c, "v", 1, neutral)
 		return Prog(Def("s", SR(v)), WriteS{Path: S("a.txt"), Data: S("one")}, WriteS{Path: S("a.txt"), Data: V("s"), Append: Op("==", L(0), N(1))}, Pr(ReadE{Path: S("a.txt")}))
@@ -183,6 +197,14 @@ func c18Shapes(quick bool) []Shape {
 			return Prog(Do(AppCallE{Calls: []AppOne{{Name: "./probe", Args: args}}}), DefN([]string{"o", "e", "code"}, AppCallE{Calls: []AppOne{{Name: "./probe3", Args: args}}}), Pr(V("o"), V("code")))
 		}})
 	}
+	// arguments of pipeline stages are computed by calls with effects: stage order = evaluation order
+	sh = append(sh, Shape{Name: "pipeline-argument-evaluation-order", Pre: pre, Setup: setup, Prog: func(c *gosym.Ctx) *Program {
+		return Prog(Def("n", N(0)),
+			Fn("tick", []ParamDecl{Pm("tag", TString)}, []Type{TString}, Set("n", Op("+", V("n"), N(1))), Pr(S("eval"), V("tag"), V("n")), Ret(Op("+", V("tag"), ItoaE{X: V("n")}))),
+			Do(AppCallE{Calls: []AppOne{{Name: "./probe", Args: []Expr{Call("tick", S("first"))}}, {Name: "./probe", Args: []Expr{Call("tick", S("second"))}}}}),
+			DefN([]string{"o", "e", "code"}, AppCallE{Calls: []AppOne{{Name: "./probe", Args: []Expr{Call("tick", S("a")), Call("tick", S("b"))}}, {Name: "./probe3", Args: []Expr{Call("tick", S("c"))}}, {Name: "./probe", Args: []Expr{Call("tick", S("d"))}}}}),
+			Pr(V("o"), V("code"), V("n")))
+	}})
 	mk("capture-in-function", func(c *gosym.Ctx, v gosym.Str) []Stmt {
 		prog := []string{"./probe3", "./probe200", "./probe"}[c.Choose("prog", 0, 2)]
 		return []Stmt{Fn("run", []ParamDecl{Pm("a", TString)}, []Type{TString, TInt}, DefN([]string{"o", "e", "code"}, AppCallE{Calls: []AppOne{{Name: "./probe", Args: []Expr{V("a")}}, {Name: prog, Args: []Expr{S("x")}}}}), Pr(V("e")), Ret(V("o"), V("code"))),
